@@ -114,7 +114,7 @@ func c13Prop(st *CaseStats, fam int) func(t *rapid.T) {
 		}
 		nSteps := rapid.IntRange(3, 40).Draw(t, "nSteps")
 		for s := 0; s < nSteps; s++ {
-			op := rapid.IntRange(0, 10).Draw(t, "op")
+			op := rapid.IntRange(0, 11).Draw(t, "op")
 			if fam == FamWide && rapid.Bool().Draw(t, "dvHeavy") {
 				op = 9 // the wide variant is mostly about one doc-value reader crossing chunk boundaries
 			}
@@ -400,6 +400,32 @@ func c13Prop(st *CaseStats, fam int) func(t *rapid.T) {
 				if err := checkDVVisit(r.r, c.Exp, r.fields, uint64(doc)); err != nil {
 					fail("%v", err)
 				}
+			case op == 11: // the caller is done with an iterator and closes it (once, or twice as a deferred Close after an explicit one does); it is dead afterwards
+				ai := aliveIts()
+				if len(ai) == 0 {
+					continue
+				}
+				i := ai[rapid.IntRange(0, len(ai)-1).Draw(t, "closeIt")]
+				twice := rapid.Bool().Draw(t, "closeTwice")
+				hist += fmt.Sprintf(" %s.Close(twice=%v)", itName(its, i), twice)
+				err := safely("PostingsIterator.Close", func() error {
+					if err := i.it.Close(); err != nil {
+						return err
+					}
+					if twice {
+						return i.it.Close()
+					}
+					return nil
+				})
+				if err != nil {
+					fail("%v", err)
+				}
+				for _, o := range its {
+					if o.it == i.it {
+						o.alive = false
+					}
+				}
+				labels = append(labels, "iterator-closed")
 			default: // stored field visits (pooled visit context) interleaved across segments
 				si := rapid.IntRange(0, nSeg-1).Draw(t, "seg")
 				c := cases[si]
